@@ -264,6 +264,11 @@ func IsPermanentError(err error) bool {
 
 	permanentPatterns := []string{
 		"revision mismatch",
+		// what the NATS client actually returns for a failed revision-checked
+		// update ("nats: wrong last sequence: N") and for a create on an
+		// existing key ("...: key exists"): another instance owns the record
+		"wrong last sequence",
+		"key exists",
 		"key not found",
 		"permission denied",
 		"bucket not found",
